@@ -566,3 +566,54 @@ def rule_anchor(ctx, c, rule):
             rl, _ = root_local(fn, t["args"][1])
             ctx.check(rl == al, rule, HC, fn.loc(b), "the %s release converts with the cycle's anchor" % k, "",
                       "anchor argument is _%d, cycle anchor is _%d" % (rl, al), extra="arg-" + k)
+
+
+def rule_cycle_exists(ctx, c, rule):
+    """C01-R8: a background cycle exists and flush() runs one."""
+    facts = c.facts
+    start = facts.fn(GC + "::start")
+    if start is None:
+        ctx.fail(rule, GC + "::start", "-", "GlobalCollector::start exists", "anchor lost", extra="anchor")
+    else:
+        spawns = start.calls_re(r"thread::(builder::)?Builder::spawn(_scoped|_unchecked)?$|thread::(functions::)?spawn$", cleanup=False)
+        ok = False
+        detail = "no thread spawn"
+        for sp in spawns:
+            t = start.term(sp)
+            cd = c.prov._closure_def(start, t["args"][-1])
+            if not cd:
+                continue
+            cf, agg = cd
+            hc = sites_star(facts, cf, lambda g, tt: tt["callee"] == HC)
+            sl = cf.calls_re(r"thread::(functions::)?sleep$", cleanup=False)
+            on_cycle = [b for b in hc if cf.on_cycle(b)]
+            no_exit = all(not (cf.reach([b]) & set(cf.returns())) for b in on_cycle)
+            fed = False
+            for s in sl:
+                src = c.prov.of_operand(cf, cf.term(s)["args"][0])
+                fed = fed or any((o.path and ".report_interval" in o.path) or
+                                 (o.kind == "upvar" and "report_interval" in str(o.key)) for o in src)
+            same_loop = all(any(s in cf.reach([b]) and b in cf.reach([s]) for s in sl) for b in on_cycle)
+            ok = bool(on_cycle) and no_exit and bool(sl) and fed and same_loop
+            detail = "handle_commands on cycle: %s, loop has no return: %s, sleep on the same loop: %s, fed by report_interval: %s" % (
+                bool(on_cycle), no_exit, same_loop, fed)
+        ctx.check(ok, rule, start.path, start.span,
+                  "set_reporter starts a thread that runs handle_commands in an endless loop, sleeping by Config.report_interval",
+                  detail, detail, extra="loop")
+        # the collector is installed before the thread is spawned and REPORTER_READY is set after start
+    fl = facts.fn("fastrace::collector::global_collector::flush")
+    if fl is None:
+        ctx.fail(rule, "fastrace::collector::global_collector::flush", "-", "flush exists", "anchor lost", extra="anchor-flush")
+        return
+    spawns = fl.calls_re(r"thread::(builder::)?Builder::spawn(_scoped|_unchecked)?$|thread::(functions::)?spawn$", cleanup=False)
+    joins = fl.calls_re(r"thread::(join_handle::)?JoinHandle::<T>::join$", cleanup=False)
+    runs = False
+    for sp in spawns:
+        cd = c.prov._closure_def(fl, fl.term(sp)["args"][-1])
+        if cd and sites_star(facts, cd[0], lambda g, tt: tt["callee"] == HC):
+            runs = True
+    direct = sites_star(facts, fl, lambda g, tt: tt["callee"] == HC)
+    ok_join = bool(joins) and all(fl.must_pass([(sp, fl.term(sp)["target"])], joins)[0] for sp in spawns)
+    ctx.check((runs and ok_join) or bool(direct), rule, fl.path, fl.span,
+              "flush() runs one collector cycle and waits for it (helper thread joined before returning)",
+              "spawn+join" if runs else "direct call", "runs handle_commands: %s, joined on every path: %s" % (runs, ok_join), extra="flush")
